@@ -26,7 +26,8 @@ KNOWN = ("C01-NONLIT", "C01-NONLIT-KLS", "C13-DEC0")
 @st.composite
 def cases(draw, tier="quick"):
     big = draw(st.integers(0, 5)) == 0      # now and then more instances per class and higher cardinalities
-    g = draw(gg.general(max_nodes=12 if big else 7, max_stmts=48 if big else 30, inst_props=(RDF_TYPE, RDF_TYPE, RDF_TYPE, "http://ex.org/isA", gg.INST_PROPS[2])))
+    odd = draw(st.integers(0, 3)) == 0       # literals spelling a node's IRI, classes that are typed / used as values
+    g = draw(gg.general(max_nodes=12 if big else 7, max_stmts=48 if big else 30, iri_like_literals=odd, class_typing=odd, inst_props=(RDF_TYPE, RDF_TYPE, RDF_TYPE, "http://ex.org/isA", gg.INST_PROPS[2])))
     cfg = draw(gg.switches())
     cfg.update(draw(gg.harmless_extras()))
     cfg["instances_report_mode"] = draw(st.sampled_from(["mixed", "mixed", "mixed", "mixed", "ratio", "abs"]))
@@ -49,6 +50,7 @@ def selftest():
 
 def evaluate(case, own=OWN):
     """shared with C02/C10/C16: returns (Outcome-or-None, findings, labels, model context)"""
+    case = common.expanded(case)
     kw, triples = common.base_kwargs(case)
     text, crash = sut.shex(kw, acceptance_threshold=case["thr"])
     if crash is not None:
@@ -105,3 +107,14 @@ def check(case):
     if mine:
         return known(mine[0].sig, repr(mine[0]), labels, nt)
     return ok(labels, nt)
+
+
+def enumerate_cases(tier):
+    """scale family: very small and very large ratios (1/10001, 10000/10001) in every report mode"""
+    sizes = [(250, 1, 1), (10001, 1, 1)] if tier == "quick" else [(250, 1, 1), (1000, 3, 2), (10001, 1, 1), (20001, 2, 3)]
+    for sc in sizes:
+        for mode in ("mixed", "ratio"):
+            for acm in (True, False):
+                yield {"g": {"scale": list(sc)}, "target": {"mode": "all"}, "thr": 0,
+                       "cfg": {"instances_report_mode": mode, "all_instances_are_compliant_mode": acm, "keep_less_specific": acm,
+                               "inverse_paths": mode == "mixed"}}
